@@ -43,6 +43,7 @@ import XotModel.Lemmas.RepairRoundTripDoc
 import XotModel.Lemmas.RepairRoundTripElement
 import XotModel.Lemmas.RepairDocKeep
 import XotModel.Lemmas.RepairRun
+import XotModel.Lemmas.RepairDeclsOk
 import XotModel.Props.C01
 
 namespace XotModel.Props
@@ -1524,20 +1525,43 @@ theorem C10_repair_resolves_everywhere (esc : Escapers) (pr : TokenParams) (env 
   exact ⟨E', _, hat', hs', fun s p o hx =>
     C10_writable_resolves_everywhere esc env' pr t' path E' _ hat' hs' huE hw s p o hx⟩
 
-/-- At the level of token TEXTS — `C10_names_resolve_in_tokens` composed with `C10_repair_writable` /
-    `C10_repair_run_outcome`, stated explicitly: after `create_missing_prefixes(element)` on EVERY tree whose
-    elements declare no prefix twice, when no processing instruction below the element has a namespaced target,
-    the token stream of the repaired element exists and the independent XML-Namespaces resolver, run over its
-    texts, answers the expanded names of the nodes.  The hypotheses of `C10_names_resolve_in_tokens` are those on
-    the state AFTER the call (tables with pairwise different prefix strings, declarations of registered prefixes
-    that do not rebind `xml`); "the run succeeds" is no longer one of them. -/
+/-- The call keeps the hypotheses of `C10_names_resolve_in_tokens` and of the `XmlPrefixReserved` clauses, for
+    EVERY tree: it only registers prefix strings `n<k>` that were not in the table (pairwise different strings
+    stay pairwise different; `n` + decimal digits holds no `:` and no `=`), and the declarations it inserts are
+    `xmlns=""` and prefixes just registered that are bound nowhere in scope of the element — in particular not
+    the `xml` prefix, which is bound in every scope.  So: `EnvStrings` of the tables, `DeclsOkBelow` of the
+    repaired element, `DeclsOk` of the bindings in scope at it, and hence `XmlPrefixReserved` of the frames of
+    every event of its run. -/
+theorem C10_repair_keeps_table_hypotheses (env : Env) (henv : SerResolve.EnvStrings env) (t : Tree) (path : Path)
+    (name : Nat) (ks : List Tree) (hat : t.at? path = some (.node (.element name) ks))
+    (hdk : SerResolve.DeclsOkBelow env (.node (.element name) ks))
+    (hinh : SerResolve.DeclsOk env (inheritedDecls t path)) (env' : Env) (t' : Tree)
+    (h : createMissingPrefixes env t path = .ok (env', t')) :
+    SerResolve.EnvStrings env' ∧
+    ∃ E' inScope, t'.at? path = some E' ∧ E'.value = .element name ∧ namespacesInScope t' path = some inScope ∧
+      SerResolve.DeclsOkBelow env' E' ∧ SerResolve.DeclsOk env' inScope ∧
+      ∀ rel, XmlPrefixReserved (framesAlong E' rel ++ [inScope]) := by
+  rw [C10_repair_element env t path name ks hat] at h
+  obtain ⟨h1, E', h2, h3, h4, h5⟩ := rdo_repairElement env henv t path name ks hat hdk hinh env' t' h
+  obtain ⟨rest, hc⟩ := ancestorsOrSelf_of_at? t' path E' h2
+  have hs' : namespacesInScope t' path = some (namespacesInScopeChain (E' :: rest)) := by
+    simp [namespacesInScope, hc]
+  exact ⟨h1, E', _, h2, h3, hs', h4, h5 _ hs', fun rel => rdo_xmlPrefixReserved E' _ h4 (h5 _ hs') rel⟩
+
+/-- **At the level of token TEXTS, every tree** — `C10_names_resolve_in_tokens` composed with
+    `C10_repair_run_outcome` and `C10_repair_keeps_table_hypotheses`, all hypotheses on the state BEFORE the
+    call: interning tables with pairwise different prefix strings, the built-in entries and no `:` / `=` in
+    prefixes and local names (`EnvStrings`); a tree whose elements declare no prefix twice, declare registered
+    prefixes only and do not rebind `xml`, likewise the declarations the element inherits.  Nothing else — no
+    `Representable`, names need not be writable.  After `create_missing_prefixes(element)`, when no processing
+    instruction of the run has a namespaced target, the token stream of the repaired element exists and the
+    independent XML-Namespaces resolver, run over the token TEXTS, answers the expanded names of the nodes. -/
 theorem C10_repair_names_resolve_in_tokens (esc : Escapers) (pr : TokenParams) (unesc : Str → Str)
-    (hue : ∀ u, unesc (esc.attr u) = u) (env : Env) (hok : EnvOk env) (t : Tree)
-    (path : Path) (name : Nat) (ks : List Tree) (hat : t.at? path = some (.node (.element name) ks))
-    (hu : UniqueBelow t) (env' : Env) (t' : Tree) (h : createMissingPrefixes env t path = .ok (env', t'))
-    (henv : SerResolve.EnvStrings env')
-    (hdk : ∀ E', t'.at? path = some E' → SerResolve.DeclsOkBelow env' E')
-    (hin : ∀ inScope, namespacesInScope t' path = some inScope → SerResolve.DeclsOk env' inScope)
+    (hue : ∀ u, unesc (esc.attr u) = u) (env : Env) (hok : EnvOk env) (henv : SerResolve.EnvStrings env)
+    (t : Tree) (path : Path) (name : Nat) (ks : List Tree) (hat : t.at? path = some (.node (.element name) ks))
+    (hu : UniqueBelow t) (hdk : SerResolve.DeclsOkBelow env (.node (.element name) ks))
+    (hinh : SerResolve.DeclsOk env (inheritedDecls t path))
+    (env' : Env) (t' : Tree) (h : createMissingPrefixes env t path = .ok (env', t'))
     (hpi : ∀ p tg d, (p, Output.pi tg d) ∈ genOutputs t' path →
       (env'.namespaceStr (env'.nsOfName tg)).isEmpty = true) :
     ∃ toks, tokensWith esc env' pr t' path = .ok toks ∧
@@ -1549,18 +1573,25 @@ theorem C10_repair_names_resolve_in_tokens (esc : Escapers) (pr : TokenParams) (
   obtain ⟨l, hl, _⟩ := (C10_repair_run_outcome esc pr env hok t path name ks hat hsub env' t' h).2 hpi
   have htoks : tokensWith esc env' pr t' path = .ok l := by simp [tokensWith, hl]
   obtain ⟨_, hu'⟩ := C10_repair_keeps_unique env hok t path name ks hat hu env' t' h
-  obtain ⟨nd, E', hat', _⟩ := C10_repair_fresh_prefixes env hok t path name ks hat hsub env' t' h
-  obtain ⟨E2, hat2, hval, _⟩ := C10_repair_keeps_declarations env hok t path name ks hat hsub env' t' h
-  rw [hat'] at hat2
-  cases hat2
-  obtain ⟨rest, hc⟩ := ancestorsOrSelf_of_at? t' path E' hat'
-  have hs' : namespacesInScope t' path = some (namespacesInScopeChain (E' :: rest)) := by
-    simp [namespacesInScope, hc]
+  obtain ⟨henv', E', inScope, hat', hval, hs', hdk', hin', _⟩ :=
+    C10_repair_keeps_table_hypotheses env henv t path name ks hat hdk hinh env' t' h
   have huE : UniqueBelow E' := by
     intro rel n' hn
     exact hu' (path ++ rel) n' (by rw [at?_append, hat']; exact hn)
-  exact ⟨l, htoks, C10_names_resolve_in_tokens esc env' pr t' unesc henv hue path E' _ hat' hs' huE
-    (hdk E' hat') (hin _ hs') (Or.inl (by rw [hval]; rfl)) l htoks⟩
+  exact ⟨l, htoks, C10_names_resolve_in_tokens esc env' pr t' unesc henv' hue path E' _ hat' hs' huE
+    hdk' hin' (Or.inl (by rw [hval]; rfl)) l htoks⟩
+
+/-- Non-vacuity of the hypotheses of `C10_repair_names_resolve_in_tokens` (closed): the tables and the tree
+    of the example below, where nothing is declared. -/
+example :
+    let env : Env := ⟨[[], Gen.xmlNs, ['u'], ['v']], [[], ['x','m','l']],
+      [(['a'], 2), (['b'], 0), (['c'], 3), (['t'], 0)]⟩
+    SerResolve.EnvStrings env ∧ SerResolve.DeclsOk env (inheritedDecls (.node (.element 0) []) []) :=
+  ⟨⟨by decide, rfl, rfl, rfl, rfl, by decide⟩, by
+    intro x hx
+    simp only [inheritedDecls, List.isEmpty_nil, if_true, basePrefixes, List.mem_singleton] at hx
+    subst hx
+    exact ⟨by decide, fun _ => rfl⟩⟩
 
 /-- Non-vacuity, closed, OUTSIDE `Representable`: `<a><b c="x"/><?t?></a>` with `a` in namespace `u`, the
     attribute `c` in namespace `v`, an EMPTY text node next to a text node holding U+0001 inside `b`, nothing
